@@ -3,6 +3,7 @@ package main
 import (
 	"go/token"
 	"go/types"
+	"strings"
 
 	"golang.org/x/tools/go/ssa"
 )
@@ -333,4 +334,345 @@ func (c *Ctx) WalkInl(fn *ssa.Function, depth int, visit func(ev InlEvent)) {
 		}
 	}
 	rec(fn, nil, nil, depth, map[*ssa.Function]bool{fn: true})
+}
+
+// ---- results of multi-return helpers ----------------------------------------------------------------------------------
+
+// RetAlt is one return site of a helper, in the caller's terms.
+type RetAlt struct {
+	Val   *X     // the returned value (result index of the query)
+	Facts []Fact // branch facts that hold at that return, in the caller's terms
+	Ret   *ssa.Return
+}
+
+// helperCall: x is (a projection of) a call of a same-module unexported
+// function or literal with a body; returns the call node and result index.
+func helperCall(x *X) (call *X, idx int) {
+	x = strip(x)
+	if x == nil {
+		return nil, 0
+	}
+	idx = 0
+	if x.Op == "extract" && len(x.Args) == 1 {
+		n := 0
+		for _, ch := range x.Name {
+			if ch < '0' || ch > '9' {
+				return nil, 0
+			}
+			n = n*10 + int(ch-'0')
+		}
+		idx = n
+		x = strip(x.Args[0])
+	}
+	if x == nil || x.Op != "call" || x.Callee == nil || len(x.Callee.Blocks) == 0 || x.Callee.Pkg == nil {
+		return nil, 0
+	}
+	f := x.Callee
+	if !strings.HasPrefix(f.Pkg.Pkg.Path(), modPath) {
+		return nil, 0
+	}
+	if f.Parent() == nil && (f.Object() == nil || f.Object().Exported()) {
+		return nil, 0
+	}
+	return x, idx
+}
+
+// RetAlts lists, for a value that is a result of an unexported helper, what
+// the helper returns at each of its return sites, with parameters replaced by
+// the call's arguments. nil if x is not such a value (or the helper is
+// recursive or large).
+func (c *Ctx) RetAlts(x *X) []RetAlt {
+	call, idx := helperCall(x)
+	if call == nil {
+		return nil
+	}
+	ci, ok := call.V.(ssa.CallInstruction)
+	if !ok {
+		return nil
+	}
+	f := call.Callee
+	if c.retBusy == nil {
+		c.retBusy = map[*ssa.Function]bool{}
+	}
+	if c.retBusy[f] || len(c.retBusy) > 2 {
+		return nil
+	}
+	c.retBusy[f] = true
+	defer delete(c.retBusy, f)
+	env := c.callEnv(ci, f, nil)
+	if mc, isMC := ci.Common().Value.(*ssa.MakeClosure); isMC {
+		for i, fv := range f.FreeVars {
+			if i < len(mc.Bindings) {
+				env[fv] = c.E(mc.Bindings[i])
+			}
+		}
+	}
+	var out []RetAlt
+	for _, b := range f.Blocks {
+		ret, ok := b.Instrs[len(b.Instrs)-1].(*ssa.Return)
+		if !ok || idx >= len(ret.Results) {
+			continue
+		}
+		if len(out) >= 8 {
+			return nil
+		}
+		alt := RetAlt{Val: subst(c.RetX(ret, idx), env), Ret: ret}
+		for _, fct := range c.FactsAt(b) {
+			alt.Facts = append(alt.Facts, Fact{Cond: subst(fct.Cond, env), Val: fct.Val, If: fct.If})
+		}
+		out = append(out, alt)
+	}
+	return out
+}
+
+// boolConst: x is the constant true/false.
+func boolConst(x *X) (val, ok bool) {
+	x = strip(x)
+	if x == nil || x.Op != "const" {
+		return false, false
+	}
+	switch x.Name {
+	case "true":
+		return true, true
+	case "false":
+		return false, true
+	}
+	return false, false
+}
+
+// impliedFacts: a branch on the boolean result of an unexported helper implies
+// the facts of the helper's return site when exactly one of its return sites
+// yields that truth value (and all others yield the opposite constant).
+func (c *Ctx) impliedFacts(f Fact) []Fact {
+	// err == nil where err is the error result of a helper with exactly one return site that can yield nil
+	if m, ok := Match(EqNil(Bind("e")), f.Cond); ok && f.Val {
+		alts := c.RetAlts(m["e"])
+		if len(alts) < 2 {
+			return nil
+		}
+		var hit *RetAlt
+		for i := range alts {
+			if definitelyNonNil(alts[i]) {
+				continue
+			}
+			if v := strip(alts[i].Val); v == nil || v.Op != "nil" || hit != nil {
+				return nil
+			}
+			hit = &alts[i]
+		}
+		if hit == nil {
+			return nil
+		}
+		return hit.Facts
+	}
+	alts := c.RetAlts(f.Cond)
+	if len(alts) < 2 {
+		return nil
+	}
+	var hit *RetAlt
+	for i := range alts {
+		v, ok := boolConst(alts[i].Val)
+		if !ok {
+			return nil
+		}
+		if v == f.Val {
+			if hit != nil {
+				return nil
+			}
+			hit = &alts[i]
+		}
+	}
+	if hit == nil {
+		return nil
+	}
+	return hit.Facts
+}
+
+// Leaf is one alternative a value can take, with the branch facts known on
+// the way it is chosen (phi edge, or return site of a helper).
+type Leaf struct {
+	Val   *X
+	Facts []Fact
+}
+
+// definitelyNonNil: the returned error of this alternative cannot be nil.
+func definitelyNonNil(a RetAlt) bool {
+	v := strip(a.Val)
+	if v == nil {
+		return false
+	}
+	if v.Op == "call" && (nameMatches(v.Name, "fmt.Errorf") || nameMatches(v.Name, "errors.New") || nameMatches(v.Name, "errors.Join")) {
+		return true
+	}
+	if v.Op == "complit" || v.Op == "makeinterface" || v.Op == "global" {
+		return true
+	}
+	for _, f := range a.Facts {
+		if !f.Val {
+			if _, ok := Match(EqNil(Is(v)), f.Cond); ok {
+				return true
+			}
+		}
+	}
+	return false
+}
+
+// siblingKnown: what the facts at block b say about result k of the helper
+// call: (isBool, value) or (isNil, nil-ness).
+func (c *Ctx) siblingKnown(b *ssa.BasicBlock, call *X, k int) (kind string, val bool) {
+	c.factDepth++ // plain facts only
+	defer func() { c.factDepth-- }()
+	for _, f := range c.FactsAt(b) {
+		if h, j := helperCall(f.Cond); h != nil && j == k && h.V == call.V {
+			return "bool", f.Val
+		}
+		if m, ok := Match(EqNil(Bind("e")), f.Cond); ok {
+			if h, j := helperCall(m["e"]); h != nil && j == k && h.V == call.V {
+				return "nil", f.Val
+			}
+		}
+	}
+	return "", false
+}
+
+// feasible marks the return sites of a helper call that are compatible with
+// what is known, at block b, about the call's other results.
+func (c *Ctx) feasible(b *ssa.BasicBlock, call *X, idx int, n int) []bool {
+	keep := make([]bool, n)
+	for i := range keep {
+		keep[i] = true
+	}
+	if b == nil {
+		return keep
+	}
+	res := call.Callee.Signature.Results()
+	for k := 0; k < res.Len(); k++ {
+		if k == idx {
+			continue
+		}
+		kind, val := c.siblingKnown(b, call, k)
+		if kind == "" {
+			continue
+		}
+		sa := c.RetAlts(&X{Op: "extract", Name: itoa(k), Args: []*X{call}})
+		if len(sa) != n {
+			continue
+		}
+		for i := range sa {
+			switch kind {
+			case "bool":
+				if v, ok := boolConst(sa[i].Val); ok && v != val {
+					keep[i] = false
+				}
+			case "nil":
+				isNil := strip(sa[i].Val) != nil && strip(sa[i].Val).Op == "nil"
+				if val && definitelyNonNil(sa[i]) {
+					keep[i] = false
+				}
+				if !val && isNil {
+					keep[i] = false
+				}
+			}
+		}
+	}
+	return keep
+}
+
+// LeavesF flattens a value into the alternatives it can take: through phis
+// (with the facts of the incoming edge) and through the return sites of
+// unexported helpers (with the facts of the return site). Where the analysed
+// point `at` is reached only under a known outcome of another result of the
+// same helper call (boolean value, or nil-ness of an error), return sites
+// incompatible with it are dropped.
+func (c *Ctx) LeavesF(x *X, at ssa.Instruction) []Leaf {
+	var out []Leaf
+	var atB *ssa.BasicBlock
+	if at != nil {
+		atB = at.Block()
+	}
+	var rec func(x *X, facts []Fact, d int)
+	rec = func(x *X, facts []Fact, d int) {
+		if x == nil || x.Op == "cut" {
+			return
+		}
+		if ph, isPhi := x.V.(*ssa.Phi); isPhi && x.Op == "phi" && d < 5 && len(x.Args) == len(ph.Edges) {
+			for i, a := range x.Args {
+				pred := ph.Block().Preds[i]
+				ef := append(append(append([]Fact{}, facts...), c.FactsAt(pred)...), edgeFact(c, pred, ph.Block())...)
+				rec(a, ef, d+1)
+			}
+			return
+		}
+		if x.Op == "phi" && d < 5 {
+			for _, a := range x.Args {
+				rec(a, facts, d+1)
+			}
+			return
+		}
+		call, idx := helperCall(x)
+		alts := c.RetAlts(x)
+		if call == nil || len(alts) == 0 || d >= 5 {
+			out = append(out, Leaf{Val: x, Facts: facts})
+			return
+		}
+		keep := c.feasible(atB, call, idx, len(alts))
+		for i, a := range alts {
+			if keep[i] {
+				rec(a.Val, append(append([]Fact{}, facts...), a.Facts...), d+1)
+			}
+		}
+	}
+	rec(x, nil, 0)
+	return out
+}
+
+// Leaves is LeavesF without the facts.
+func (c *Ctx) Leaves(x *X, at ssa.Instruction) []*X {
+	var out []*X
+	for _, l := range c.LeavesF(x, at) {
+		out = append(out, l.Val)
+	}
+	return out
+}
+
+// FactsAtSite: the branch facts under which an inlined site executes, in the
+// analysed function's terms: those of its own block (parameters replaced by
+// the arguments of the call it was reached through) and those of the
+// outermost call.
+func (c *Ctx) FactsAtSite(s InlSite) []Fact {
+	var out []Fact
+	for _, f := range c.FactsAt(s.In.Block()) {
+		out = append(out, Fact{Cond: subst(f.Cond, s.Env), Val: f.Val, If: f.If})
+	}
+	if len(s.Via) > 0 {
+		out = append(out, c.FactsAt(s.Via[0].Block())...)
+	}
+	return out
+}
+
+// GuardedSite is Guarded for an inlined site.
+func (c *Ctx) GuardedSite(s InlSite, pat P, val bool) (Binds, bool) {
+	for _, f := range c.FactsAtSite(s) {
+		if f.Val != val {
+			continue
+		}
+		if b, ok := Match(pat, f.Cond); ok {
+			return b, true
+		}
+	}
+	return nil, false
+}
+
+// onlyCalledFrom: every static call site of fn lies in one of the given functions (and all its call sites are known).
+func (c *Ctx) onlyCalledFrom(fn *ssa.Function, set map[*ssa.Function]bool) bool {
+	sites, known := c.staticCallSites(fn)
+	if !known || len(sites) == 0 {
+		return false
+	}
+	for _, s := range sites {
+		if !set[topFunc(s.Parent())] {
+			return false
+		}
+	}
+	return true
 }
